@@ -27,6 +27,7 @@ RULE = (
 RULE += '; the no-needless-delay condition is judged at arrival and at every instant of a wait'
 RULE += '; one decorator object may serve the function under test and a bystander; periods of minutes'
 RULE += '; the loop blocked across the instant a waiter was due (virtual CPU time); functools.partial of a coroutine function'
+RULE += '; whole-second periods written as ints (2, 3, 90, 300)'
 LEVEL_TEXT = (
     "Validity predicates over exact virtual start times: no half-open period window with more than limit starts, starts "
     "in arrival order, no delay when the stated condition holds, every call ends with the function's own outcome; "
@@ -257,9 +258,10 @@ def strategy(tier):
     def cases(draw):
         limit = draw(st.integers(1, 4))
         # also periods of minutes (rate limits of external services): waits longer than a minute
-        period = draw(st.sampled_from([0.5, 1.0, 2.5, 0.5, 1.0, 2.5, 1 / 3, 0.1, 0.7, 90.0, 300.0]))
-        if period in (0.5, 1.0, 2.5, 90.0, 300.0):
-            form = draw(st.sampled_from(["float", "timedelta", "float", "int"] if period == 1.0 else ["float", "timedelta"]))
+        period = draw(st.sampled_from([0.5, 1.0, 2.5, 0.5, 1.0, 2.5, 1 / 3, 0.1, 0.7, 90.0, 300.0, 2.0, 3.0]))
+        if period in (0.5, 1.0, 2.5, 90.0, 300.0, 2.0, 3.0):
+            # whole numbers of seconds may be written as a Python int (`period=2`, `period=60`)
+            form = draw(st.sampled_from(["float", "timedelta", "float", "int"] if float(period).is_integer() else ["float", "timedelta"]))
         else:
             form = "float"  # not a whole number of microseconds: only meaningful as a float
         if draw(st.integers(0, 9)) == 0:
